@@ -310,7 +310,7 @@ TIE_TEXTS = ["Foo supra,§, 5 bar", "In Jones v. Jones, 1 U.S. 1, 2 (1999), the 
 def run_with_seed(seed, texts):
     env = dict(os.environ)
     env["PYTHONHASHSEED"] = str(seed)
-    r = subprocess.run(["/venv/bin/python", "-c", SNIPPET, json.dumps(texts)], capture_output=True, text=True, env=env, cwd="/repo", timeout=300)
+    r = subprocess.run(["/venv/bin/python", "-c", SNIPPET, json.dumps(texts)], capture_output=True, text=True, env={**env, **({"PYTHONPATH": common.REPO} if common.REPO != "/repo" else {})}, cwd=common.REPO, timeout=300)
     if r.returncode != 0:
         return None, r.stderr[-400:]
     return json.loads(r.stdout.strip().splitlines()[-1]), None
